@@ -817,6 +817,7 @@ func runScriptedPeer(c *simkit.Choice, r *simkit.Rec) {
 	var eut endRes
 	var eutApp []byte
 	eutFinished := false
+	var eutRetAt int64 = -1 // virtual time at which the endpoint's Handshake returned
 	var again, postReadErr, postWriteErr error
 	postN := 0
 	var peerRes *reftls.Result
@@ -884,10 +885,15 @@ func runScriptedPeer(c *simkit.Choice, r *simkit.Rec) {
 			eutRaw.SetReadDeadlineNS(s.Now + sr.Deadline)
 		}
 		eut.HsErr = conn.Handshake()
+		eutRetAt = s.Now
 		collectState(conn, &eut)
 		if eut.HsErr != nil {
 			// the failure must be sticky and must leave no lock behind: a second
-			// Handshake, a Read, a Write and Close all have to return (with errors)
+			// Handshake, a Read, a Write and Close all have to return (with errors),
+			// also when the application lifts the deadline that had expired
+			if sr.Deadline > 0 {
+				eutRaw.SetReadDeadlineNS(0)
+			}
 			again = conn.Handshake()
 			var b1 [8]byte
 			postN, postReadErr = conn.Read(b1[:])
@@ -1164,6 +1170,10 @@ func runScriptedPeer(c *simkit.Choice, r *simkit.Rec) {
 			r.Violate("completed-with-misbehaving-peer", site, "handshake reported complete although the peer stalled")
 			return
 		}
+		if again == nil {
+			r.Violate("error-not-sticky", site, fmt.Sprintf("Handshake failed (%v) but a second call, made after the deadline was lifted, returned nil", eut.HsErr))
+			return
+		}
 		if !isTimeout(eut.HsErr) {
 			r.Violate("wrong-error", site, fmt.Sprintf("peer stalled and the read deadline expired, but Handshake returned %v instead of a timeout error", eut.HsErr))
 			return
@@ -1175,6 +1185,15 @@ func runScriptedPeer(c *simkit.Choice, r *simkit.Rec) {
 		r.Reach(idx(scriptReach, "timeout-at-deadline"))
 		r.Outcome = "timeout-at-deadline"
 		return
+	}
+	// a handshake header that announces more than the 64 KiB a message may have
+	// is decisive on its own: the endpoint must refuse it when it sees it, not
+	// wait for (and buffer) a body until the peer gives up 60 virtual seconds later
+	for _, d := range sr.Devs {
+		if d.Kind == reftls.DevHsLen && d.Fired && d.Changed && d.Val > 65536 && eut.HsErr != nil && eutRetAt >= 60e9 && sr.Deadline == 0 {
+			r.Violate("keeps-waiting", site, fmt.Sprintf("peer announced a handshake message of %d bytes; the endpoint kept reading until the peer gave up (returned %v at t=%.1fs)", d.Val, eut.HsErr, float64(eutRetAt)/1e9))
+			return
+		}
 	}
 	if eut.HsErr != nil {
 		if again == nil {
